@@ -187,7 +187,17 @@ func (c *Ctx) Emit(op string, obs string) {
 	c.obs.WriteByte('\n')
 	c.NLines++
 	c.curCase = append(c.curCase, op)
+	if flushEachLine {
+		c.ops.Flush()
+		c.obs.Flush()
+	}
 }
+
+// VH_FLUSH=1: flush after every line, so that after a crash of the process (a panic in a
+// goroutine of the real code that no recover can catch, a fatal runtime error) ops.txt
+// holds everything up to the crash; check.py re-runs a crashed harness this way to obtain
+// the replay.
+var flushEachLine = os.Getenv("VH_FLUSH") != ""
 
 // Count records a case: tag is the branch it exercised, key its canonical identity.
 func (c *Ctx) Count(tag string, key string, nontrivial bool) {
